@@ -2,6 +2,7 @@ from __future__ import division, print_function
 import numpy as np
 from bct.utils import BCTParamError, binarize, get_rng
 from bct.utils import pick_four_unique_nodes_quickly
+from bct.utils.miscellaneous_utilities import _VERIF, _verif_emit
 from .clustering import number_of_components
 from ..citations import MASLOV2002, SPORNS2004, RUBINOV2011
 from ..due import BibTeX, due
@@ -124,7 +125,11 @@ def latmio_dir_connected(R, itr, D=None, seed=None):
                         j[e1] = d
                         j[e2] = b  # reassign edge indices
                         eff += 1
+                        if _VERIF:
+                            _verif_emit('attempt', fn='latmio_dir_connected', acc=1, a=a, b=b, c=c, d=d, e1=e1, e2=e2, i=i, j=j, R=R, eff=eff, att=att, it=it)
                         break
+            if _VERIF:
+                _verif_emit('attempt', fn='latmio_dir_connected', acc=0, a=a, b=b, c=c, d=d, e1=e1, e2=e2, i=i, j=j, R=R, eff=eff, att=att, it=it)
             att += 1
 
     Rlatt = R[np.ix_(ind_rp[::-1], ind_rp[::-1])]  # reverse random permutation
@@ -221,7 +226,11 @@ def latmio_dir(R, itr, D=None, seed=None):
                     j[e1] = d
                     j[e2] = b  # reassign edge indices
                     eff += 1
+                    if _VERIF:
+                        _verif_emit('attempt', fn='latmio_dir', acc=1, a=a, b=b, c=c, d=d, e1=e1, e2=e2, i=i, j=j, R=R, eff=eff, att=att, it=it)
                     break
+            if _VERIF:
+                _verif_emit('attempt', fn='latmio_dir', acc=0, a=a, b=b, c=c, d=d, e1=e1, e2=e2, i=i, j=j, R=R, eff=eff, att=att, it=it)
             att += 1
 
     Rlatt = R[np.ix_(ind_rp[::-1], ind_rp[::-1])]  # reverse random permutation
@@ -360,7 +369,11 @@ def latmio_und_connected(R, itr, D=None, seed=None):
                         j[e1] = d
                         j[e2] = b
                         eff += 1
+                        if _VERIF:
+                            _verif_emit('attempt', fn='latmio_und_connected', acc=1, a=a, b=b, c=c, d=d, e1=e1, e2=e2, i=i, j=j, R=R, eff=eff, att=att, it=it)
                         break
+            if _VERIF:
+                _verif_emit('attempt', fn='latmio_und_connected', acc=0, a=a, b=b, c=c, d=d, e1=e1, e2=e2, i=i, j=j, R=R, eff=eff, att=att, it=it)
             att += 1
 
     Rlatt = R[np.ix_(ind_rp[::-1], ind_rp[::-1])]
@@ -467,7 +480,11 @@ def latmio_und(R, itr, D=None, seed=None):
                     j[e1] = d
                     j[e2] = b
                     eff += 1
+                    if _VERIF:
+                        _verif_emit('attempt', fn='latmio_und', acc=1, a=a, b=b, c=c, d=d, e1=e1, e2=e2, i=i, j=j, R=R, eff=eff, att=att, it=it)
                     break
+            if _VERIF:
+                _verif_emit('attempt', fn='latmio_und', acc=0, a=a, b=b, c=c, d=d, e1=e1, e2=e2, i=i, j=j, R=R, eff=eff, att=att, it=it)
             att += 1
 
     Rlatt = R[np.ix_(ind_rp[::-1], ind_rp[::-1])]
@@ -1204,7 +1221,11 @@ def randmio_dir_connected(R, itr, seed=None):
                     j[e1] = d  # reassign edge indices
                     j[e2] = b
                     eff += 1
+                    if _VERIF:
+                        _verif_emit('attempt', fn='randmio_dir_connected', acc=1, a=a, b=b, c=c, d=d, e1=e1, e2=e2, i=i, j=j, R=R, eff=eff, att=att, it=it)
                     break
+            if _VERIF:
+                _verif_emit('attempt', fn='randmio_dir_connected', acc=0, a=a, b=b, c=c, d=d, e1=e1, e2=e2, i=i, j=j, R=R, eff=eff, att=att, it=it)
             att += 1
 
     return R, eff
@@ -1272,7 +1293,11 @@ def randmio_dir(R, itr, seed=None):
                 i[e1] = d
                 j[e2] = b  # reassign edge indices
                 eff += 1
+                if _VERIF:
+                    _verif_emit('attempt', fn='randmio_dir', acc=1, a=a, b=b, c=c, d=d, e1=e1, e2=e2, i=i, j=j, R=R, eff=eff, att=att, it=it)
                 break
+            if _VERIF:
+                _verif_emit('attempt', fn='randmio_dir', acc=0, a=a, b=b, c=c, d=d, e1=e1, e2=e2, i=i, j=j, R=R, eff=eff, att=att, it=it)
             att += 1
 
     return R, eff
@@ -1391,7 +1416,11 @@ def randmio_und_connected(R, itr, seed=None):
                     j[e1] = d
                     j[e2] = b  # reassign edge indices
                     eff += 1
+                    if _VERIF:
+                        _verif_emit('attempt', fn='randmio_und_connected', acc=1, a=a, b=b, c=c, d=d, e1=e1, e2=e2, i=i, j=j, R=R, eff=eff, att=att, it=it)
                     break
+            if _VERIF:
+                _verif_emit('attempt', fn='randmio_und_connected', acc=0, a=a, b=b, c=c, d=d, e1=e1, e2=e2, i=i, j=j, R=R, eff=eff, att=att, it=it)
             att += 1
 
     return R, eff
@@ -1466,8 +1495,12 @@ def randmio_dir_signed(R, itr, seed=None):
                 R[c, d] = r0_cb
 
                 eff += 1
+                if _VERIF:
+                    _verif_emit('attempt', fn='randmio_dir_signed', acc=1, a=a, b=b, c=c, d=d, R=R, eff=eff, att=att, it=it)
                 break
 
+            if _VERIF:
+                _verif_emit('attempt', fn='randmio_dir_signed', acc=0, a=a, b=b, c=c, d=d, R=R, eff=eff, att=att, it=it)
             att += 1
 
     #print(eff)
@@ -1551,7 +1584,11 @@ def randmio_und(R, itr, seed=None):
                 j[e1] = d
                 j[e2] = b  # reassign edge indices
                 eff += 1
+                if _VERIF:
+                    _verif_emit('attempt', fn='randmio_und', acc=1, a=a, b=b, c=c, d=d, e1=e1, e2=e2, i=i, j=j, R=R, eff=eff, att=att, it=it)
                 break
+            if _VERIF:
+                _verif_emit('attempt', fn='randmio_und', acc=0, a=a, b=b, c=c, d=d, e1=e1, e2=e2, i=i, j=j, R=R, eff=eff, att=att, it=it)
             att += 1
 
     return R, eff
@@ -1614,8 +1651,12 @@ def randmio_und_signed(R, itr, seed=None):
                 R[c, d] = R[d, c] = r0_cb
 
                 eff += 1
+                if _VERIF:
+                    _verif_emit('attempt', fn='randmio_und_signed', acc=1, a=a, b=b, c=c, d=d, R=R, eff=eff, att=att, it=it)
                 break
 
+            if _VERIF:
+                _verif_emit('attempt', fn='randmio_und_signed', acc=0, a=a, b=b, c=c, d=d, R=R, eff=eff, att=att, it=it)
             att += 1
 
     return R, eff
@@ -1694,6 +1735,10 @@ def randomize_graph_partial_und(A, B, maxswap, seed=None):
             j[e1] = d
             j[e2] = b  # reassign edge indices
             nswap += 1
+            if _VERIF:
+                _verif_emit('attempt', fn='randomize_graph_partial_und', acc=1, a=a, b=b, c=c, d=d, e1=e1, e2=e2, i=i, j=j, R=A, eff=nswap, att=0, it=nswap)
+        elif _VERIF:
+            _verif_emit('attempt', fn='randomize_graph_partial_und', acc=0, a=a, b=b, c=c, d=d, e1=e1, e2=e2, i=i, j=j, R=A, eff=nswap, att=0, it=nswap)
     return A
 
 
